@@ -7,6 +7,7 @@ package main
 
 import (
 	"fmt"
+	"regexp"
 	"regexp/syntax"
 	"unicode"
 
@@ -248,6 +249,13 @@ func registerRegexp(p *Program) {
 			panic(&goPanic{msg: "regexp: Compile: " + err.Error()})
 		}
 		return r
+	}
+	I["regexp.QuoteMeta"] = func(m *Machine, fr *Frame, fn *ssa.Function, a []Value) Value {
+		s := m.strArg(a[0])
+		if !s.IsConcrete() {
+			panic(unsupported("regexp.QuoteMeta of a symbolic string"))
+		}
+		return m.mkStr(regexp.QuoteMeta(s.Concrete()))
 	}
 	I["regexp.Compile"] = func(m *Machine, fr *Frame, fn *ssa.Function, a []Value) Value {
 		s := m.strArg(a[0])
